@@ -20,7 +20,7 @@ Lemma exempt_witness :
   expand_env W_v [(TDq, render_pieces ps_exempt)] = [(TDq, render_pieces ps_exempt)].
 Proof.
   split; [reflexivity|]. split; [reflexivity|]. split; [reflexivity|]. split; [reflexivity|].
-  unfold expand_env. cbn [map]. change (render_pieces ps_exempt) with [120; 61; 39; 36; 65; 39].
+  rewrite expand_env_map. cbn [map]. change (render_pieces ps_exempt) with [120; 61; 39; 36; 65; 39].
   rewrite gate_exempts_dq. reflexivity.
 Qed.
 
@@ -37,5 +37,5 @@ Theorem partial W ps tg :
   gate_ok ps = true -> wf_pieces ps = true -> tg <> TSq -> tg <> TBq ->
   expand_env W [(tg, render_pieces ps)] = [(tg, den_pieces W ps)].
 Proof.
-  intros Hg Hw H1 H2. unfold expand_env. cbn [map]. rewrite expand_env_tok_den by assumption. reflexivity.
+  intros Hg Hw H1 H2. rewrite expand_env_map. cbn [map]. rewrite expand_env_tok_den by assumption. reflexivity.
 Qed.
